@@ -536,11 +536,21 @@ func (s *State) get(name string, srt *Sort) *Term {
 	} else {
 		arrSorts[name] = srt
 	}
+	var r *Term
 	if t, ok := s.heap[name]; ok {
-		return t
+		r = t
+	} else {
+		r = Sym(name+"@0", srt)
 	}
-	return Sym(name+"@0", srt)
+	if readHook != nil {
+		readHook[name+"#"+fmt.Sprint(r.id)] = r
+	}
+	return r
 }
+
+// readHook, when set, records the heap arrays read while evaluating an opaque
+// spec function.
+var readHook map[string]*Term
 
 func (ex *Exec) set(s *State, name string, t *Term) {
 	s.heap[name] = t
